@@ -1,15 +1,178 @@
-/- T2N.Model.It — STUB (to be replaced by the model of src/lang/it/mod.rs) -/
+/-
+  T2N.Model.It — model of `src/lang/it/mod.rs` (struct `Italian`).
+-/
 import T2N.Model.Lang
 
 namespace T2N.It
 
+/-- the ordinal stems recognised by `lemmatize` (the `matches!` list) -/
+def ordStems : List Word := [
+  w!"prim", w!"second", w!"terz", w!"quart", w!"quint", w!"sest", w!"settim", w!"ottav", w!"ttav",
+  w!"non", w!"decim"]
+
+def isVowelEnding (c : Char) : Bool := c == 'o' || c == 'a' || c == 'e' || c == 'i'
+
+/-- `lemmatize`: strip ALL trailing `o a e i` (`trim_end_matches([..])`); keep the stripped form only
+for the ordinal stems (except the word "secondi") and for `…esim`. -/
+def lemmatize (w : Word) : Word :=
+  let cand := trimEndBy isVowelEnding w
+  if (ordStems.contains cand && w != w!"secondi") || endsWith cand w!"esim" then cand else w
+
+/-- the `WordSplitter` patterns of `impl Default for Italian`, same order -/
+def patterns : List Word := [
+  w!"miliardesim", w!"milionesim", w!"bilionesim", w!"cinquanta", w!"centesim", w!"millesim",
+  w!"miliardo", w!"miliardi", w!"quaranta", w!"sessanta", w!"settanta", w!"milione", w!"milioni",
+  w!"bilione", w!"bilioni", w!"ottanta", w!"novanta", w!"trenta", w!"ttanta", w!"cento", w!"mille",
+  w!"venti", w!"mila"]
+
+/-- units: `if b.peek(2) != b"10" => b.put(d)` -/
+def unit (d : Nat) : Act := .when (.neg (.peekEq 2 [1, 0])) (.put [d])
+
+/-- `un`, `otto`: `if b.is_free(2) => b.put(d)` -/
+def unitFree (d : Nat) : Act := .when (.free 2) (.put [d])
+
+/-- the irregular ordinals: `if b.is_empty() => b.put(d)` -/
+def ordUnit (d : Nat) : Act := .when .empty (.put [d])
+
+def cento : Act :=
+  .ite (.and (.and (.or (.peekLen 2 1) (.peekLt 2 [1, 0])) (.neg (.peekEq 2 [1]))) (.neg (.peekEq 2 [0, 1])))
+    (.shift 2) (.fail .overlap)
+
+/-- `b.len() == 1 && b.peek(1) == b"1"` -/
+def isJustOne : Guard := .and (.lenEq 1) (.peekEq 1 [1])
+
+/-- singular multiplier (`milione`, `miliardo`, `bilione`): needs the group to be exactly one -/
+def multSing (k : Nat) : Act := .ite (.neg (.groupOne k)) (.fail .nan) (.shift k)
+
+/-- ordinal multiplier (`milionesim`, …) -/
+def multOrd (k : Nat) : Act := .ite isJustOne (.fail .nan) (.shift k)
+
+/-- plural multiplier (`milioni`, …) -/
+def multPlur (k : Nat) : Act := .ite (.or .empty isJustOne) (.fail .nan) (.shift k)
+
+/-- lemma ↦ instruction (the `match lemmatize(num_func) { … }` of `apply`).
+No lemma occurs in two arms. The arm `"non" if b.is_empty() && num_func != "non"` depends on the raw
+word: the `num_func != "non"` part is handled in `applyFuel`. The pattern `"centunesimo"` is
+unreachable (`lemmatize` never returns a word ending in `esimo`) but is kept for fidelity. -/
+def vocab : List (Word × Act) := [
+  (w!"zero", .put [0]),
+  (w!"un", unitFree 1), (w!"uno", unitFree 1), (w!"una", unitFree 1), (w!"unesim", unitFree 1),
+  (w!"prim", ordUnit 1),
+  (w!"due", unit 2), (w!"duesim", unit 2),
+  (w!"second", ordUnit 2),
+  (w!"tre", unit 3), (w!"tré", unit 3), (w!"treesim", unit 3),
+  (w!"terz", ordUnit 3),
+  (w!"quattro", unit 4), (w!"quattresim", unit 4),
+  (w!"quart", ordUnit 4),
+  (w!"cinque", unit 5), (w!"cinquesim", unit 5),
+  (w!"quint", ordUnit 5),
+  (w!"sei", unit 6), (w!"seiesim", unit 6),
+  (w!"sest", ordUnit 6),
+  (w!"sette", unit 7), (w!"settesim", unit 7),
+  (w!"settim", ordUnit 7),
+  (w!"otto", unitFree 8), (w!"tto", unitFree 8), (w!"ottesim", unitFree 8), (w!"ttesim", unitFree 8),
+  (w!"ottav", ordUnit 8),
+  (w!"nove", unit 9), (w!"novesim", unit 9),
+  (w!"non", ordUnit 9),
+  (w!"dieci", .put [1,0]), (w!"decim", .put [1,0]),
+  (w!"undici", .put [1,1]), (w!"undicesim", .put [1,1]),
+  (w!"dodici", .put [1,2]), (w!"dodicesim", .put [1,2]),
+  (w!"tredici", .put [1,3]), (w!"tredicesim", .put [1,3]),
+  (w!"quattordici", .put [1,4]), (w!"quattordicesim", .put [1,4]),
+  (w!"quindici", .put [1,5]), (w!"quindicesim", .put [1,5]),
+  (w!"sedici", .put [1,6]), (w!"sedicesim", .put [1,6]),
+  (w!"diciassette", .put [1,7]), (w!"diciassettesim", .put [1,7]),
+  (w!"diciotto", .put [1,8]), (w!"diciottesim", .put [1,8]),
+  (w!"diciannove", .put [1,9]), (w!"diciannovesim", .put [1,9]),
+  (w!"venti", .put [2,0]), (w!"ventesim", .put [2,0]),
+  (w!"ventuno", .put [2,1]), (w!"ventun", .put [2,1]), (w!"ventunesim", .put [2,1]),
+  (w!"ventotto", .put [2,8]), (w!"ventottesim", .put [2,8]),
+  (w!"trenta", .put [3,0]), (w!"trentesim", .put [3,0]),
+  (w!"trentuno", .put [3,1]), (w!"trentun", .put [3,1]), (w!"trentunesim", .put [3,1]),
+  (w!"trentotto", .put [3,8]), (w!"trentottesim", .put [3,8]),
+  (w!"quaranta", .put [4,0]), (w!"quarantesim", .put [4,0]),
+  (w!"quarantuno", .put [4,1]), (w!"quarantun", .put [4,1]), (w!"quarantunesim", .put [4,1]),
+  (w!"quarantotto", .put [4,8]), (w!"quarantottesim", .put [4,8]),
+  (w!"cinquanta", .put [5,0]), (w!"cinquantesim", .put [5,0]),
+  (w!"cinquantuno", .put [5,1]), (w!"cinquantun", .put [5,1]), (w!"cinquantunesim", .put [5,1]),
+  (w!"cinquantotto", .put [5,8]), (w!"cinquantottesim", .put [5,8]),
+  (w!"sessanta", .put [6,0]), (w!"sessantesim", .put [6,0]),
+  (w!"sessantuno", .put [6,1]), (w!"sessantun", .put [6,1]), (w!"sessantunesim", .put [6,1]),
+  (w!"sessantotto", .put [6,8]), (w!"sessantottesim", .put [6,8]),
+  (w!"settanta", .put [7,0]), (w!"settantesim", .put [7,0]),
+  (w!"settantuno", .put [7,1]), (w!"settantun", .put [7,1]), (w!"settantunesim", .put [7,1]),
+  (w!"settantotto", .put [7,8]), (w!"settantottesim", .put [7,8]),
+  (w!"ottanta", .put [8,0]), (w!"ottantesim", .put [8,0]), (w!"ttanta", .put [8,0]), (w!"ttantesim", .put [8,0]),
+  (w!"ottantuno", .put [8,1]), (w!"ottantun", .put [8,1]), (w!"ottantunesim", .put [8,1]),
+  (w!"ottantotto", .put [8,8]), (w!"ottantottesim", .put [8,8]),
+  (w!"novanta", .put [9,0]), (w!"novantesim", .put [9,0]),
+  (w!"novantuno", .put [9,1]), (w!"novantun", .put [9,1]), (w!"novantunesim", .put [9,1]),
+  (w!"novantotto", .put [9,8]), (w!"novantottesim", .put [9,8]),
+  (w!"cento", cento), (w!"centesim", cento),
+  (w!"centuno", .put [1,0,1]), (w!"centun", .put [1,0,1]), (w!"centunesimo", .put [1,0,1]),
+  (w!"mille", .when (.rangeFree 3 5) (.put [1,0,0,0])),
+  (w!"mila", .when (.rangeFree 3 5)
+    (.ite (.or (.or (.or (.peekEq 3 [1]) (.peekEq 3 [0,0,1])) (.peekLen 3 0)) (.peekEq 3 [0,0,0]))
+      (.fail .nan) (.shift 3))),
+  (w!"millesim", .when (.rangeFree 3 5)
+    (.ite (.or (.peekEq 3 [1]) (.peekEq 3 [0,0,1])) (.fail .nan) (.shift 3))),
+  (w!"milione", .when (.rangeFree 6 8) (multSing 6)),
+  (w!"milionesim", .when (.rangeFree 6 8) (multOrd 6)),
+  (w!"milioni", .when (.rangeFree 6 8) (multPlur 6)),
+  (w!"miliardo", multSing 9),
+  (w!"miliardesim", multOrd 9),
+  (w!"miliardi", multPlur 9),
+  (w!"bilione", multSing 12),
+  (w!"bilionesim", multOrd 12),
+  (w!"bilioni", multPlur 12),
+  (w!"e", .when (.lenGe 2) (.fail .incomplete))
+]
+
+/-- `get_morph_marker`: only lemmatized words (ordinals) bear a marker, given by the last char of the
+raw word. (`base != word` implies the word is non-empty and ends in one of `o a e i`.) -/
+def morph (w : Word) : Marker :=
+  if lemmatize w != w then
+    match w.getLast? with
+    | some 'o' | some 'i' => .ordinal .mo
+    | some 'a' | some 'e' => .ordinal .fa
+    | _ => .none
+  else .none
+
+/-- `apply`. The fuel bounds the compound recursion `apply → exec_group → apply`: the pieces of a
+split are either a pattern (whose lemma is itself, matched in full, hence not splittable) or a gap in
+which no pattern occurs, so depth 2 is never exceeded (`applyFuel 0` is unreachable). -/
+def applyFuel : Nat → Word → DS → Res × DS
+  | 0, _, b => (some .nan, b)
+  | fuel + 1, w, b =>
+    let lemma := lemmatize w
+    if isSplittable patterns lemma then
+      match execGroup (applyFuel fuel) (splitWord patterns lemma) with
+      | .ok ds => mergeGroup b ds false (morph w)
+      | .error e => (some e, b)
+    else
+      let act :=
+        if lemma == w!"non" && w == w!"non" then .fail .nan   -- `"non" if … && num_func != "non"`
+        else (vocab.lookup lemma).getD (.fail .nan)
+      let (r, b', _) := act.exec b
+      let marker := morph w
+      if r.isNone && !marker.isNone then (r, { b' with marker := marker, frozen := true })
+      else (r, b')
+
+def apply : Word → DS → Res × DS := applyFuel 2
+
+/-- `apply_decimal` = `apply` -/
+def applyDecimal : Word → DS → Res × DS := apply
+
+def insignificant : List Word := [
+  w!"e", w!"ehm", w!"più", w!"poi", w!"ancora", w!"meno", w!"è", w!"ben"]
+
 def lang : Lang where
   code := "it"
-  apply := fun _ b => (some .nan, b)
-  applyDecimal := fun _ b => (some .nan, b)
-  morph := fun _ => .none
-  isDecSep := fun _ => false
+  apply := apply
+  applyDecimal := applyDecimal
+  morph := morph
+  isDecSep := fun w => w == w!"virgola"
   decMark := ','
-  isLinking := fun _ => false
+  isLinking := fun w => insignificant.contains w
 
 end T2N.It
